@@ -12,6 +12,11 @@ package corr
 //   rtpInErr via=S | rtpInShort via=S n=K        (inner reader fails | K<12 bytes)
 //   rtcpIn a=M PKT… | rtcpOut PKT… | rtcpInErr | rtcpInShort n=K
 //   adv ns=D (may be negative) | get ssrc=S | close
+// The ambient of a case (first op `amb … shapes=…`, ambient_test.go) gives the incoming RTP packets wire shapes with
+// the P bit — padding-only (the count in the last octet covers everything after the header), count 1, count =
+// payload-1 — at unchanged length.  The unchanged stats recorder parses the header only (Attributes.GetRTPHeader) and
+// counts header bytes = the header's MarshalSize and bytes = everything after it, padding included, so `pl` of such a
+// packet is payload + padding and the model has nothing to learn.
 // a=M: the attributes the *caller* passes: nil | fresh | stale (the map of the previous call,
 // still holding that call's parse cache).  The inner reader always returns a new empty map.
 // PKT: SR:ssrc:ntp:pc:oc:B  RR:ssrc:B  (B: `-` or blocks `ssrc/fl/tl/lsn/jit/lsr/dlsr` joined by +)
@@ -416,7 +421,7 @@ func c19run(t *testing.T, ops []string, o *Out) {
 				o.P("bad-op")
 				continue
 			}
-			pending, pendingErr = append(hb, make([]byte, pl)...), false
+			pending, pendingErr = o.ShapeRaw(append(hb, make([]byte, pl)...)), false // the case's wire shapes (P bit, padding-only …)
 			_, _, _ = rd.Read(buf, at)
 		case "rtpInErr", "rtpInShort":
 			via, ok := c19u(m["via"], 32)
@@ -510,6 +515,7 @@ type c19gen struct {
 	ts    map[uint32]uint32
 	srs   []uint64 // NTP times of SRs written
 	rrts  []uint64 // NTP times of RRTR blocks written
+	smallPl bool   // incoming packets short enough for a one-octet padding count
 }
 
 func (g *c19gen) add(format string, a ...any) { g.ops = append(g.ops, fmt.Sprintf(format, a...)) }
@@ -575,6 +581,9 @@ func (g *c19gen) shape() string {
 			}
 		}
 		xs = joinInts(l)
+	}
+	if g.smallPl { // lengths a one-octet padding count can cover
+		return fmt.Sprintf("cc=%d xp=%d xs=%s pl=%d", cc, xp, xs, r.Pick(1, 2, 3, 100, 255, 256, 257, 1200, r.Intn(256), r.Intn(256)))
 	}
 	return fmt.Sprintf("cc=%d xp=%d xs=%s pl=%d", cc, xp, xs, r.Pick(0, 1, 100, 1200, r.Intn(1400)))
 }
@@ -820,10 +829,26 @@ func (g *c19gen) get() {
 	g.add("get ssrc=%d", s)
 }
 
+// c19gencase: the classes of c19genplain, a quarter of them with wire shapes on the incoming RTP, and the class
+// `padding`: incoming-RTP-heavy traffic (counts / wrap / mixed / lifecycle) of short packets, all of them shaped.
 func c19gencase(r *Rng, tier string, idx int) Case {
+	if idx%9 == 8 {
+		cs := c19genplain(r, tier, r.Pick(0, 0, 1, 6, 7), true)
+		cs.Class = "padding"
+		cs.Ops = append([]string{ambWith(ambOp("", "", false, false, false, false), ambShapes(r))}, cs.Ops...)
+		return cs
+	}
+	cs := c19genplain(r, tier, idx-idx/9, false)
+	if r.Chance(1, 4) {
+		cs.Ops = append([]string{ambWith(ambOp("", "", false, false, false, false), ambShapes(r))}, cs.Ops...)
+	}
+	return cs
+}
+
+func c19genplain(r *Rng, tier string, idx int, smallPl bool) Case {
 	classes := []string{"counts", "wrap", "rtt", "dlrr", "compound", "clock", "lifecycle", "mixed"}
 	cl := classes[idx%len(classes)]
-	g := &c19gen{r: r, now: c19Start, local: map[uint32]bool{}, rem: map[uint32]bool{}, rate: map[uint32]uint32{},
+	g := &c19gen{r: r, smallPl: smallPl, now: c19Start, local: map[uint32]bool{}, rem: map[uint32]bool{}, rate: map[uint32]uint32{},
 		seq: map[uint32]int{}, ts: map[uint32]uint32{}}
 	cand := []uint32{1, 2, 3, 0x80000001, 0xFFFFFFFF, 0, 65536, uint32(r.U64())}
 	np := r.Range(2, 5)
@@ -1016,7 +1041,7 @@ func init() {
 			if tier == "thorough" {
 				return 150000
 			}
-			return 2500
+			return 2800
 		},
 		Gen: c19gencase,
 		Run: func(t *testing.T, ops []string, o *Out) {
